@@ -62,6 +62,11 @@ def R2_direction(ctx):
         for r in [r for r in table(b) if r.end == "return"]:
             got[r.sel.get(("arg", 1))] = r.ret
         for v, want in cells.items():
+            if got.get(v) != want:
+                # the helper may hand the direction on to a sibling table (Graph::incident_edges_iter(v, self)): evaluate under it
+                sv = spec_eval(F, b, {1: v})
+                if sv == want:
+                    got[v] = sv
             ctx.check(got.get(v) == want, "%s:%s" % (fn, v), "Direction::%s(%s) is %s, expected %s" % (fn, v, short(got.get(v)) if got.get(v) else None, short(want)), b.where(), detail=short(want))
     for fn, fld in (("out_edges_iter", "adj"), ("in_edges_iter", "rev")):
         b = F.need(G + fn)
@@ -72,11 +77,12 @@ def R2_direction(ctx):
         ctx.check(ok, "%s:table" % fn, "Graph::%s does not yield the keys of self.%s[vertex_id.0]: %s" % (fn, fld, [short(r.ret)[:120] for r in rows]), b.where(), detail="keys(self.%s[v])" % fld)
     for fn, fld in (("src_vertex_id", "src_vertex_id"), ("dst_vertex_id", "dst_vertex_id")):
         b = F.need(G + fn)
-        rt = nosite(deep_strip(Terms(b).return_term()))
-        ok = rt[0] == "call" and rt[1].endswith("::map") and rt[2][0] == ("call", G + "get_edge", (("arg", 1), ("arg", 2))) and rt[2][1][0] == "closure"
-        if ok:
-            crt = nosite(deep_strip(Terms(F.need(rt[2][1][1])).return_term()))
-            ok = crt == ("field", ("arg", 2), fld)
+        # get_edge(id).map(|e| e.fld)  or  Ok(get_edge(id)?.fld): in the payload convention both are get_edge(id).fld
+        rt = norm_adaptors(F, nosite(deep_strip(Terms(b).return_term())))
+        alts = [x for x in (rt[1] if rt[0] == "phi" else [rt]) if not is_err_value(x) and result_variant(x) != "Err"]
+        alts = [agg_payload(x) if result_variant(x) == "Ok" else x for x in alts]
+        ok = len(alts) == 1 and alts[0] == ("field", ("call", G + "get_edge", (("arg", 1), ("arg", 2))), fld)
+        ok = ok and all(try_propagation(b, c)["kind"] in ("propagated", "returned") or error_flow(F, b, c).get("ok") for c in b.calls_to(G + "get_edge"))
         ctx.check(ok, "Graph::%s" % fn, "Graph::%s does not return get_edge(id).%s" % (fn, fld), b.where(), detail="get_edge(id).%s" % fld)
     b = F.need(G + "edge_triplet")
     oks = [r for r in table(b) if r.end == "return" and result_variant(r.ret) == "Ok"]
@@ -85,9 +91,8 @@ def R2_direction(ctx):
     ok = len(oks) == 1 and agg_payload(oks[0].ret) == ("tuple", (gv("src_vertex_id"), ge, gv("dst_vertex_id")))
     ctx.check(ok, "Graph::edge_triplet", "edge_triplet is not (vertex(src), edge, vertex(dst))", b.where(), detail="(v(src), e, v(dst))")
     b = F.need(G + "get_edge")
-    rows = [r for r in table(b) if r.end == "return"]
     look = ("call", "std::slice::<impl [T]>::get", (("field", ("arg", 1), "edges"), ("field", ("arg", 2), "0")))
-    ok = any(r.sel.get(look) == "Some" and r.ret == ("agg", "std::result::Result", "Ok", (("0", look),)) for r in rows) and any(r.sel.get(look) == "None" and result_variant(r.ret) == "Err" for r in rows)
+    ok = is_lookup_or_err(F, b, look)
     ctx.check(ok, "Graph::get_edge", "get_edge is not edges[id.0] with Err for a miss", b.where(), detail="edges[id.0] / Err")
 
 
